@@ -98,7 +98,9 @@ Definition lcfg_eqb (a b : lcfg) : bool :=
   list_eqb (fun a b => N.eqb (fst a) (fst b) && str_eqb (snd a) (snd b)) (l_ts_map a) (l_ts_map b) &&
   option_eqb tpl_eqb (l_ub_str a) (l_ub_str b) &&
   option_eqb tpl_eqb (l_ub_num a) (l_ub_num b) &&
-  option_eqb tpl_eqb (l_ub_re a) (l_ub_re b).
+  option_eqb tpl_eqb (l_ub_re a) (l_ub_re b) &&
+  option_eqb tpl_eqb (l_in a) (l_in b) && str_eqb (l_or_in_op a) (l_or_in_op b) &&
+  str_eqb (l_and_in_op a) (l_and_in_op b) && option_eqb str_eqb (l_list_sep a) (l_list_sep b).
 
 (* ---------------------------------------------------------------------------------------------- *)
 Record lcase := {
@@ -171,3 +173,73 @@ Definition judge_leaf (c : lcase) : N :=
   bits (agree (model_leaf c false) (lc_r c) &&
         match lc_f c with Some _ => agree (model_leaf c true) (lc_rn c) | None => true end)
        (spec_leaf c) (dom_leaf c) true.
+
+(* ---------------------------------------------------------------------------------------------- *)
+(* suite inlist: field in (v1, ..., vn) / field contains-all (...) *)
+From PS Require Import Spec.Query Proofs.InListP.
+Record icase := {
+  ic_K : lcfg; ic_k : option vbk; ic_extra : str;
+  ic_f : str; ic_fo : foracle; ic_disj : bool;
+  ic_vals : list (lval * bool);            (* value, str_quote_pattern decision *)
+  ic_r : outcome str
+}.
+Fixpoint keys_eqb (a b : list akey) : bool :=
+  match a, b with
+  | [], [] => true
+  | x :: a', y :: b' => akey_eqb x y && keys_eqb a' b'
+  | _, _ => false
+  end.
+(* backends that leave some strings unquoted: a bare element reads as a number token; it stands for the string
+   whose literal it is, and a bare string with list punctuation makes the list unreadable (a limitation of
+   that variant of the target language, not of the code under test) *)
+Definition key_sim (k e : akey) : bool :=
+  akey_eqb k e ||
+  match k, e with
+  | YTok f w, YMatch false f' p =>
+      str_eqb f f' && match tread vb_q w with Some l => items_eqb (norm l) p | None => false end
+  | _, _ => false
+  end.
+Fixpoint keys_sim (a b : list akey) : bool :=
+  match a, b with
+  | [], [] => true
+  | x :: a', y :: b' => key_sim x y && keys_sim a' b'
+  | _, _ => false
+  end.
+Definition bare_punct (K : lcfg) (v : lval * bool) : bool :=
+  match fst v with
+  | LStr _ sv =>
+      negb (decide_quoting K (snd v)) &&
+      match convert (value_cfg K) sv with
+      | Ok t => mem c_comma t || mem c_rpar t || match t with [] => true | _ => false end
+      | _ => false
+      end
+  | _ => false
+  end.
+Definition judge_inlist (c : icase) : N :=
+  let W := W_of (ic_extra c) in
+  let m := render_in (ic_K c) (ic_disj c) (ic_f c) (ic_fo c) (ic_vals c) in
+  let expected := all_some (map (fun v => key_of_val (ic_f c) (fst v)) (ic_vals c)) in
+  let spec :=
+    match ic_k c with
+    | None => true
+    | Some k =>
+        match ic_r c with
+        | Ok txt =>
+            if is_some (k_qpat k) && existsb (bare_punct (ic_K c)) (ic_vals c) then true else
+            shapeb txt &&
+            match in_decode W txt, expected with
+            | Some (d, ks), Some es =>
+                Bool.eqb d (ic_disj c) && (if is_some (k_qpat k) then keys_sim ks es else keys_eqb ks es)
+            | _, _ => false
+            end
+        | SigmaErr _ => existsb (fun v => refusable (fst v)) (ic_vals c)
+        | Crash _ => false
+        end
+    end in
+  let dom :=
+    match ic_k c with
+    | Some k => lcfg_eqb (ic_K c) (vb k) && negb (is_some (k_qpat k)) && wok (ic_extra c) &&
+                fo_ok W (ic_f c) (ic_fo c) && forallb in_val_okb (ic_vals c) && negb (Nat.eqb (List.length (ic_vals c)) 0)
+    | None => false
+    end in
+  bits (outcome_eqb m (ic_r c)) spec dom true.
